@@ -53,3 +53,7 @@ CLAIMS["C10"] = ("exploration",
     "Exhaustive over all 1,111,998 Unicode scalar values except C0/C1 controls in the thorough tier (quick: all of U+0080-U+02FF, every plane/surrogate/0x7FFF boundary, the 682 LaTeX targets) as body cells at string boundaries, plus Hypothesis-generated mixed strings in every text-bearing position with conversion on and off; round-trip oracle on the BYTES written by write_rtf through the independent reader, plus lexical validity of every \\u escape and its fallback. " + _EXPL,
     _READER + " \\ansi without \\ansicpg is read as Windows-1252.",
     "property-based testing: exhaustive code-point enumeration + Hypothesis strings in all positions, byte-level round-trip oracle")
+CLAIMS["C11"] = ("exploration",
+    "Exhaustive over all 682 supported commands x 14 context templates, the 26 braced commands with near-misses and every special sequence, plus Hypothesis-generated mixed texts, in every component kind with default and overridden text_convert and per-cell body text_convert; oracle = independent reference converter (written from the statement, frozen command table) whose output and the emitted run are both reduced by the independent reader to ordered events (text with super/sub state, line breaks, page fields, unknown control words). " + _EXPL,
+    _READER + " Frozen LaTeX table (data/latex_table.json); one tolerated delimiter blank after >= / <= / \\pagefield.",
+    "property-based testing: exhaustive command x template enumeration + Hypothesis texts, differential oracle vs independent reference converter")
